@@ -31,7 +31,11 @@ type solveResult struct {
 }
 
 func runSolver(sp solverSpec, timeoutS int, file string) solveResult {
-	ctx, cancel := context.WithTimeout(context.Background(), time.Duration(timeoutS+2)*time.Second)
+	return runSolverCtx(context.Background(), sp, timeoutS, file)
+}
+
+func runSolverCtx(parent context.Context, sp solverSpec, timeoutS int, file string) solveResult {
+	ctx, cancel := context.WithTimeout(parent, time.Duration(timeoutS+2)*time.Second)
 	defer cancel()
 	argv := sp.args(timeoutS, file)
 	cmd := exec.CommandContext(ctx, argv[0], argv[1:]...)
@@ -56,6 +60,9 @@ func runSolver(sp solverSpec, timeoutS int, file string) solveResult {
 		return solveResult{first, sp.name, text, secs}
 	case "timeout":
 		return solveResult{"timeout", sp.name, text, secs}
+	}
+	if parent.Err() != nil {
+		return solveResult{"cancelled", sp.name, text, secs}
 	}
 	if ctx.Err() != nil {
 		return solveResult{"timeout", sp.name, text, secs}
@@ -126,6 +133,9 @@ func solveAll(reps []*FuncReport, cfg solveConfig) {
 }
 
 func solveOne(vc *VC, o *Obligation, file string, cfg solveConfig) {
+	if o.Result != "" {
+		return // pre-decided (unsupported construct, missing target)
+	}
 	text := queryText(vc, o, nil)
 	o.Bytes = len(text)
 	if err := os.WriteFile(file, []byte(text), 0o644); err != nil {
@@ -149,22 +159,21 @@ func solveOne(vc *VC, o *Obligation, file string, cfg solveConfig) {
 		}
 		return
 	}
+	// race the three solvers; the first definite answer (unsat or sat) wins and the others are stopped
 	var results []solveResult
-	r := runSolver(solvers[0], cfg.quickT, file)
-	results = append(results, r)
-	if r.status != "unsat" || cfg.allAgree {
-		var wg sync.WaitGroup
-		rs := make([]solveResult, 2)
-		for i := 0; i < 2; i++ {
-			wg.Add(1)
-			go func(i int) {
-				defer wg.Done()
-				rs[i] = runSolver(solvers[i+1], cfg.slowT, file)
-			}(i)
-		}
-		wg.Wait()
-		results = append(results, rs...)
+	ctx, cancel := context.WithCancel(context.Background())
+	ch := make(chan solveResult, len(solvers))
+	for _, sp := range solvers {
+		go func(sp solverSpec) { ch <- runSolverCtx(ctx, sp, cfg.slowT, file) }(sp)
 	}
+	for range solvers {
+		r := <-ch
+		results = append(results, r)
+		if (r.status == "unsat" || r.status == "sat") && !cfg.allAgree {
+			break
+		}
+	}
+	cancel()
 	total := 0.0
 	sawSat, sawUnsat := false, false
 	var by string
